@@ -25,9 +25,9 @@ CLAIMS = {
 CLAIMS['C19'] = dict(ref='DESIGN.md §3 C19',
                      text="Bounded symbolic model checking of Canonical on every 128-bit pattern (loops fully unrolled): same value and sign, the unique cohort member whose exponent is closest to zero, NaN payload and Inf garbage stripped, idempotent. Encoding independence of Add/Sub, comparisons, Round/Ceil/Floor, New/Ldexp/Frexp is discharged by the value-level oracles of C01/C04/C08/C11, whose operands range over all cohort members.",
                      note=TRUST + "Encoding independence of formatting, conversions and the transcendental functions is not covered by this check.")
-CLAIMS['C02'] = dict(ref='DESIGN.md §2, §3 C02',
-                     text="Bounded symbolic model checking of MulWithMode (both 128-bit finite patterns and the mode symbolic): the exact product (up to 226 bits) reaches reduce128/reduce256 unchanged with the summed exponent, XOR sign and no sticky flag; zero products give the XOR-signed zero; Mul/Quo equal the WithMode forms under every DefaultRoundingMode; reduce128/reduce256 are proved against the rounding specification (normal, subnormal, flush, overflow). QuoWithMode's digit-generation loops are NOT covered (stated in the evidence).",
-                     note=TRUST + "Assume-guarantee at the rounding kernel. The division half of the property is only covered for special operands (C15) and the DefaultRoundingMode equivalence; the long-division loops are outside this check.")
+CLAIMS['C02'] = dict(ref='DESIGN.md Part A (A.2, A.6)',
+                     text="Bounded symbolic model checking of MulWithMode and QuoWithMode. Mul (both 128-bit finite patterns and the mode symbolic): the exact product (up to 226 bits) reaches reduce128/reduce256 unchanged with the summed exponent, XOR sign and no sticky flag; zero products; Mul/Quo equal the WithMode forms under every DefaultRoundingMode. Quo: every pre-scaling path of the dividend is exact (sig*o + rem == D*10^k at the loop header, real operands); both digit-generation loops (64-bit fast path and 128-bit path) are cut by one-step induction: from an arbitrary state satisfying sig*o + rem == X*10^k, rem < o (all loop-carried variables and the divisor fresh) one execution of the real loop body re-establishes the invariant or leaves the loop, and at every exit the rounding kernel receives floor(exact quotient) with the sticky flag set exactly when the division is inexact, under the kernel's precondition; plus a time-boxed bounded unrolling with the real operands. reduce128/reduce256 are proved against the rounding specification (normal, subnormal, flush, overflow).",
+                     note=TRUST + "Assume-guarantee at the rounding kernel. For Quo the solver decides base case, inductive step and exit condition; the induction itself and the algebraic step from the invariant to 'exact quotient' are argued in DESIGN.md, not solved; the loop variable exp is assumed within 80 of its start (a consequence of the hypothesis). uint128.div is replaced by its mathematical contract (q = n div o, r = n mod o) WITHOUT a proved lemma (the Knuth-style body stays undecided at 60 s): a defect inside uint128.div itself is outside this check. A failing inductive step that no real-operand path reproduces is reported as inconclusive, not as a violation.")
 CLAIMS['C15'] = dict(ref='DESIGN.md §3 C15',
                      text="Bounded symbolic model checking of special-operand behaviour: Add/Sub/Mul/Quo/QuoRem on all operand class pairs with a NaN/Inf/zero operand, ten elementary functions on NaN/Inf/zero/invalid arguments, NaN propagation, payload and Payload.String of created NaNs, and the classification predicates on all 2^128 patterns; every bit inside a class is symbolic; expected result classes are produced at check time by the float64 operations of the installed toolchain.",
                      note=TRUST + "Reference = float64 semantics of the installed Go toolchain. One open known finding (Expm1(-0), pinned by the repository's own vectors) is listed in known_findings.json. The math.Pow table is not part of this check.")
